@@ -55,6 +55,11 @@ CHECKS = {
          "Every sequence of length l..6 (quick) / 8 (thorough) over a 4-5 letter alphabet, repeats included, for l in {1,2,3} and m in {1,2,4,16} (+3,8,33) is hashed by the real ProbOrdMinHash2; hook H4 exposes the selected (index,value) pairs per position. Grouped by multiset (2436 groups quick, 2196 with several permutations): the selected (element,occurrence) set per position must be identical across permutations and equal the l pairs with the smallest race values, the race tables being read from the real code; the signature value must be one injective function of the selected elements in sequence order; l=1 signatures are permutation invariant; a call's result is independent of 1-2 earlier calls on the instance (all choices from a 6-sequence pool). Non-vacuity: thousands of reject-then-accept events (the situation the repaired defect mishandled) are counted.",
          "instance seed pinned through hook H4 (seed randomness belongs to C12); race values assumed independent of l",
          "DESIGN.md §4 C11"),
+ "C12": ("exploration",
+         "exhaustive enumeration of call interleavings of 2-3 instances (one thread) + free-running threads (sampled) + repeated process launches",
+         "For each of 42 (quick) / 105 (thorough) sketcher kinds (all 9 sketcher types x sizes x register types x entry points incl. std HashMap) every interleaving at call granularity of the call sequences (construction included) of 2 instances x 4 (5) steps and 3 instances x 3 (4) steps is executed, with identical and with different inputs (147000 interleavings quick); each instance must return its solo result. This closes the schedule quantifier at call granularity, which is where state hoisted into a static / thread-local / process global shows; the unchanged crate has no lock or atomic, so there is no finer scheduling point for a controlled scheduler. Then 20 (100) barrier-released rounds of 2..16 OS threads (sampling, labelled as such) and 8 (32) process launches whose digests must agree bit for bit.",
+         "threads are sampled, not enumerated; a data race inside a call introduced via unsafe would need a race detector",
+         "DESIGN.md §4 C12"),
 }
 PENDING_REASON = "check not built yet in this revision (see DESIGN.md §4 for the planned model-checking approach)"
 
